@@ -108,6 +108,9 @@ def judge_mask(ctx, case):
 def leak(pan, value, enc):
     """Where the clear card number (or a telling part of it) shows in one value, else None."""
     needles = {'whole': pan, 'without_check_digit': pan[:-1]}
+    only_digits = ''.join(ch for ch in pan if ch.isdigit())
+    if only_digits != pan and len(only_digits) >= 11:
+        needles['digits_without_separators'] = only_digits
     mid = pan[6:len(pan) - 4]
     if len(mid) >= 6:
         needles['middle_digits'] = mid
@@ -147,6 +150,15 @@ def judge_decode(ctx, case):
         n = cfg[str(b)]['field_length']
         ctx.count('fixed-width elements carrying a masking processor')
     pan = ''.join(rng.choice('0123456789') for _ in range(n))
+    shape = case['salt'] % 5
+    if shape == 3 and n >= 16:
+        # "every card number of 10 or more characters": grouped with separators, or carrying letters
+        sep = rng.choice(' -')
+        pan = ''.join(ch if (k + 1) % 5 else sep for k, ch in enumerate(pan))
+        ctx.count('card numbers with separators decoded')
+    elif shape == 4 and n >= 14:
+        pan = ''.join(ch if k % 3 else rng.choice('ABCDEFGH') for k, ch in enumerate(pan))
+        ctx.count('card numbers with letters decoded')
     msg = {'MTI': '1240', 'DE%d' % b: pan}
     # other elements: letters only (cannot coincide with the PAN's digits)
     for ob in rng.sample(gen.data_bits(cfg), min(5, len(gen.data_bits(cfg)))):
@@ -167,6 +179,14 @@ def judge_decode(ctx, case):
     ctx.seen('routes', case['route'])
     ctx.seen('processor placements', '%s@DE%d' % (proc, b) if case['cfg'] == 'packaged' else proc + '@generated')
     wire = ref.encode(msg, cfg, enc)
+    if case['salt'] % 7 == 5:
+        # the configuration OBJECT was already used for a decode before masking was switched on in it
+        live = copy.deepcopy(cfg)
+        live[str(b)].pop('field_processor', None)
+        ctx.call(iso.loads, wire, encoding=enc, iso_config=live, budget=400000)
+        live[str(b)]['field_processor'] = proc
+        cfg = live
+        ctx.count('decodes after masking was switched on in an already used configuration object')
     if case['route'] == 'loads':
         kind, back = ctx.call(iso.loads, wire, encoding=enc, iso_config=cfg, budget=400000)
     else:
@@ -218,6 +238,10 @@ def require(m):
     reasons = []
     if set(m['classes'].get('card number lengths masked', ())) != set(range(10, 41)):
         reasons.append('mask(): lengths 10..40 not all driven')
+    for need in ('card numbers with separators decoded', 'card numbers with letters decoded',
+                 'decodes after masking was switched on in an already used configuration object'):
+        if not m['counters'].get(need):
+            reasons.append('never driven: ' + need)
     if not m['counters'].get('fixed-width elements carrying a masking processor'):
         reasons.append('no fixed-width element carried a masking processor')
     if set(m['classes'].get('routes', ())) != {'loads', 'IpmReader', 'IpmReader1014'}:
